@@ -38,40 +38,63 @@ def skipComment : List Nat → List Nat
   | [] => []
   | c :: cs => if c = 10 then cs else skipComment cs
 
+def nextIsDotOrDeg : List Nat → Bool
+  | d :: _ => d = cDeg || d = cDot
+  | [] => false
+
+/-- which branch of the `while source:` loop a head character selects -/
+inductive LK | esc | bq | cnum | cstr | num | two | vset | vget | comment | digraph | cp | gen
+  deriving DecidableEq, Repr
+
+def lexKind (c : Nat) : LK :=
+  if c = 92 then .esc else if c = 96 then .bq else if c = 187 then .cnum else if c = 171 then .cstr
+  else if isNumCh c then .num else if c = 8219 then .two else if c = 8594 then .vset
+  else if c = 8592 then .vget else if c = 35 then .comment else if isDigraphPrefix c then .digraph
+  else if c = 8314 then .cp else .gen
+
+/-- one iteration of the loop: the token produced (if any) and the unread rest; `none` only on empty input -/
+def lexStep : List Nat → Option (Option Token × List Nat)
+  | [] => none
+  | c :: cs =>
+    match lexKind c with
+    | .esc =>
+      (match cs with
+       | [] => some (none, [])
+       | d :: r => some (some ⟨.character, [d]⟩, r))
+    | .bq => some (some ⟨.string, (scanString 96 true cs []).1⟩, (scanString 96 true cs []).2)
+    | .cnum => some (some ⟨.cnum, (scanString 187 false cs []).1⟩, (scanString 187 false cs []).2)
+    | .cstr => some (some ⟨.cstr, (scanString 171 false cs []).1⟩, (scanString 171 false cs []).2)
+    | .num =>
+      if c = 48 && !nextIsDotOrDeg cs then
+        some (some ⟨.number, [48]⟩, cs)
+      else
+        some (some ⟨.number, (scanNumber cs (c = cDeg) (if c = cDot then 1 else 0) [c]).1⟩,
+              (scanNumber cs (c = cDeg) (if c = cDot then 1 else 0) [c]).2)
+    | .two =>
+      (match cs with
+       | [] => some (some ⟨.string, []⟩, [])
+       | [a] => some (some ⟨.string, [a]⟩, [])
+       | a :: b :: r => some (some ⟨.string, [a, b]⟩, r))
+    | .vset => some (some ⟨.vset, (takeLetters cs []).1⟩, (takeLetters cs []).2)
+    | .vget => some (some ⟨.vget, (takeLetters cs []).1⟩, (takeLetters cs []).2)
+    | .comment => some (none, skipComment cs)
+    | .digraph =>
+      (match cs with
+       | [] => some (some ⟨.general, [c]⟩, [])
+       | d :: r => if d = 124 then some (some ⟨.general, [c]⟩, d :: r) else some (some ⟨.general, [c, d]⟩, r))
+    | .cp =>
+      (match cs with
+       | [] => some (none, [])
+       | d :: r => some (some ⟨.cpnum, [d]⟩, r))
+    | .gen => some (some ⟨.general, [c]⟩, cs)
+
 def tokeniseF : Nat → List Nat → List Token
   | 0, _ => []
-  | _, [] => []
-  | n + 1, c :: cs =>
-    if c = 92 then                                   -- backslash: character literal
-      match cs with
-      | [] => []
-      | d :: r => ⟨.character, [d]⟩ :: tokeniseF n r
-    else if c = 96 then let (v, r) := scanString 96 true cs []; ⟨.string, v⟩ :: tokeniseF n r
-    else if c = 187 then let (v, r) := scanString 187 false cs []; ⟨.cnum, v⟩ :: tokeniseF n r
-    else if c = 171 then let (v, r) := scanString 171 false cs []; ⟨.cstr, v⟩ :: tokeniseF n r
-    else if isNumCh c then
-      if c = 48 && !(match cs with | d :: _ => d = cDeg || d = cDot | [] => false) then
-        ⟨.number, [48]⟩ :: tokeniseF n cs
-      else
-        let (v, r) := scanNumber cs (c = cDeg) (if c = cDot then 1 else 0) [c]
-        ⟨.number, v⟩ :: tokeniseF n r
-    else if c = 8219 then                            -- ‛ two-character string
-      match cs with
-      | [] => [⟨.string, []⟩]
-      | [a] => [⟨.string, [a]⟩]
-      | a :: b :: r => ⟨.string, [a, b]⟩ :: tokeniseF n r
-    else if c = 8594 then let (v, r) := takeLetters cs []; ⟨.vset, v⟩ :: tokeniseF n r
-    else if c = 8592 then let (v, r) := takeLetters cs []; ⟨.vget, v⟩ :: tokeniseF n r
-    else if c = 35 then tokeniseF n (skipComment cs)
-    else if isDigraphPrefix c then
-      match cs with
-      | [] => [⟨.general, [c]⟩]
-      | d :: r => if d = 124 then ⟨.general, [c]⟩ :: tokeniseF n (d :: r) else ⟨.general, [c, d]⟩ :: tokeniseF n r
-    else if c = 8314 then                            -- ⁺ code-page number
-      match cs with
-      | [] => []
-      | d :: r => ⟨.cpnum, [d]⟩ :: tokeniseF n r
-    else ⟨.general, [c]⟩ :: tokeniseF n cs
+  | n + 1, s =>
+    match lexStep s with
+    | none => []
+    | some (none, r) => tokeniseF n r
+    | some (some t, r) => t :: tokeniseF n r
 
 def tokenise (s : List Nat) : List Token := tokeniseF (s.length + 1) s
 end Vy
